@@ -669,6 +669,12 @@ def Mono : Int → List (COp D) → Prop
   | _, [] => True
   | t, op :: ops => t ≤ op.now ∧ Mono op.now ops
 
+instance Mono.dec : (t : Int) → (ops : List (COp D)) → Decidable (Mono t ops)
+  | _, [] => isTrue trivial
+  | t, op :: ops =>
+    have := Mono.dec op.now ops
+    inferInstanceAs (Decidable (t ≤ op.now ∧ Mono op.now ops))
+
 /-- the clock reading of the last operation (or `t` if there is none) -/
 def lastNow : Int → List (COp D) → Int
   | t, [] => t
